@@ -16,7 +16,8 @@
 (*          before the declaration)                                        *)
 (*   touch  none | expr (a call inside it is rewritten) | stmt (a          *)
 (*          statement inside it is deleted; func only) | decl (the whole   *)
-(*          declaration is replaced by one of another shape)               *)
+(*          declaration is replaced by one of another shape; for a type:   *)
+(*          a defined type becomes an alias)                               *)
 (* The header: build constraint, detached licence comment, package         *)
 (* comment, comment trailing the package clause.                           *)
 (*                                                                         *)
@@ -46,7 +47,7 @@ Touch  == {"none", "expr", "stmt", "decl"}
 
 Slots == {s \in [kind : Kinds, doc : Docs, inner : Inners, trail : Trails, gap : Gaps, touch : Touch] :
             /\ (s.touch = "stmt" => s.kind = "func")
-            /\ (s.kind = "type" => s.touch = "none")
+            /\ (s.kind = "type" => s.touch \in {"none", "decl"})
             /\ (s.inner \in {"own"} => s.kind \in {"func", "type"})}
 Headers == [build : {"none", "tag"}, lic : {"none", "detached"}, pkgdoc : {"none", "line"}, pkgtrail : {"none", "eol"}]
 Files == [hdr : Headers, decls : UNION {[1..n -> Slots] : n \in 1..MaxDecls}]
